@@ -208,9 +208,46 @@ def r4_stream_read(cx):
     cx.ob("R4", "R4/size", len(sz) == 1 and ("field", "region") in gb.origins(sz[0][1]["args"][0], through_calls=False), g, "ByteStream::size = region.size()")
 
 
+def r5_file_reads_are_positioned(cx):
+    """the file cursor behind FileSource is shared mutable state: every read of the file must first seek to
+    the absolute offset it was asked for, on every path (no remembered position)"""
+    import streams
+    F = cx.F
+    for m, rd_pat, off in (("read", r"Read>::read$", 2), ("read_exact", r"Read>::read_exact$", 2), ("cut", r"Read>::read_to_end$", None)):
+        f = F.one(impl_self="bases::io::file::FileSource", item=m, trait="Source", closure=False)
+        b = F.body(f)
+        rds = [(i, t) for i, t in b.calls(rd_pat) if "FileSource" not in callee_str(t)]
+        sks = [(i, t) for i, t in b.calls(r"Seek>::seek$")]
+        ok = len(rds) >= 1 and len(sks) >= 1
+        if ok:
+            for ri, rt in rds:
+                doms = [(si, stt) for si, stt in sks if b.dominates(si, ri)]
+                good = False
+                for si, stt in doms:
+                    v, opnd = streams.seek_variant(b, stt)
+                    if v != "Start":
+                        continue
+                    o = b.origins(opnd)
+                    if off is not None:
+                        good = good or (("param", off) in o)
+                    else:
+                        good = good or (("param", 2) in o and any(x[0] == "call" and call_is(b.term(x[1]), r"Range::<.*>::begin$") for x in o))
+                # same lock guard: a lock acquisition dominates both
+                lk = [i for i, t in b.calls(r"Mutex::<.*>::lock$") if b.dominates(i, ri)]
+                ok = ok and good and bool(lk)
+        cx.ob("R5", "R5/FileSource::%s" % m, ok, f, "FileSource::%s seeks to SeekFrom::Start(requested offset) under the lock on every path before it reads the file" % m)
+    g = F.one(impl_self="bases::io::file::FileSource", item="get_slice", trait="Source", closure=False)
+    gb = F.body(g)
+    cx.ob("R5", "R5/FileSource::get_slice", len(gb.calls(r"FileSource as .*Source>::read_exact$")) == 1 and not gb.calls(r"Read>::read$"), g, "FileSource::get_slice goes through its own read_exact(region.begin(), ..)")
+    st = F.struct("io::file::FileSource")
+    names = sorted(fl["name"] for fl in st["fields"])
+    cx.ob("R5", "R5/FileSource-has-no-position-state", names == ["len", "path", "source"], "(struct FileSource)", "FileSource keeps no remembered position besides the file itself: fields %s" % names)
+
+
 RULES = [
     ("R1", r1_cursor, 4),
     ("R2", r2_rebase, 20),
     ("R3", r3_siblings, 8),
     ("R4", r4_stream_read, 7),
+    ("R5", r5_file_reads_are_positioned, 5),
 ]
